@@ -774,6 +774,7 @@ func main() {
 	genAsmTables(repo, out)
 	genAsmScalar(repo, out)
 	genFacts(p, repo, out)
+	genStage2Table(p, out)
 }
 
 func genConsts(p *pkgInfo, out string) {
@@ -1338,4 +1339,744 @@ func head(s string) string {
 		s = s[:60]
 	}
 	return strings.TrimSpace(s)
+}
+
+// ---------------------------------------------------------------- stage-2 goto machine (unifiedMachine)
+//
+// The body of unifiedMachine is compiled into a small control-flow graph and then *executed* for every
+// (updateChar call site, byte) pair, assuming `done == false` and that every guard call succeeds. Whatever is
+// not one of the statement shapes listed here makes the extractor refuse.
+
+const (
+	s2Label   = iota // named join point; next = first node of the labelled statement
+	s2Act            // records an action, continues with next
+	s2Branch         // cond(b) ? next : alt
+	s2Switch         // tbl[b]
+	s2Site           // updateChar call site
+	s2Fail           // return false, done
+	s2Ret            // successor decided by the popped return code (after the scopeEnd action)
+	s2Succeed        // the succeed: block (only entered with done == true)
+)
+
+type s2node struct {
+	kind      int
+	act       string
+	cond      func(b int) bool
+	tbl       [256]*s2node
+	tblLine   [256]int
+	next, alt *s2node
+	line      int
+	pos       token.Pos
+	site      int
+	label     string
+	defined   bool
+}
+
+type s2ret struct {
+	name   string // constant name, "" for default
+	val    int64
+	target string // label
+	line   int
+}
+
+type s2c struct {
+	p          *pkgInfo
+	labels     map[string]*s2node
+	labelOrder []string
+	sites      []*s2node
+	rets       []s2ret
+	retMask    int64
+	scopeEnd   []string
+	reopen     []string
+	succeed    []string
+	nScopeEnd  int
+}
+
+func s2line(n ast.Node) int { return fset.Position(n.Pos()).Line }
+
+func nows(s string) string { return strings.Join(strings.Fields(s), "") }
+
+func (c *s2c) label(name string) *s2node {
+	if n, ok := c.labels[name]; ok {
+		return n
+	}
+	n := &s2node{kind: s2Label, label: name}
+	c.labels[name] = n
+	return n
+}
+
+func s2die(n ast.Node, format string, a ...interface{}) {
+	die("unifiedMachine line %d: %s: %s", s2line(n), fmt.Sprintf(format, a...), src(n))
+}
+
+// isGoto reports whether body is exactly `{ goto <label> }` and returns the label.
+func isGoto(body *ast.BlockStmt) (string, bool) {
+	if body == nil || len(body.List) != 1 {
+		return "", false
+	}
+	bs, ok := body.List[0].(*ast.BranchStmt)
+	if !ok || bs.Tok != token.GOTO || bs.Label == nil {
+		return "", false
+	}
+	return bs.Label.Name, true
+}
+
+var s2pushRe = regexp.MustCompile(`^append\(pj\.containingScopeOffset,\(pj\.get_current_loc\(\)<<retAddressShift\)\|(retAddress\w+Const)\)$`)
+
+const (
+	s2srcTop   = "offset=pj.containingScopeOffset[len(pj.containingScopeOffset)-1]"
+	s2srcPop   = "pj.containingScopeOffset=pj.containingScopeOffset[:len(pj.containingScopeOffset)-1]"
+	s2srcUpd   = "done,idx=updateChar(pj,idx)"
+	s2srcAt    = "offset>>retAddressShift"
+	s2srcRetSw = "offset&((1<<retAddressShift)-1)"
+)
+
+// guard calls: `if !<call> { goto fail }`, assumed to succeed
+var s2guards = map[string]string{
+	"parseString(&pj.ParsedJson,idx,peekSize(pj),pj.copyStrings)": "parseString",
+	"isValidTrueAtom(buf[idx:])":                                  "true",
+	"isValidFalseAtom(buf[idx:])":                                 "false",
+	"isValidNullAtom(buf[idx:])":                                  "null",
+	"addNumber(buf[idx:],&pj.ParsedJson)":                         "number",
+}
+
+// declarations at the head of the function that carry no action
+var s2decls = map[string]bool{
+	"buf:=pj.Message": true, "constaddOneForRoot=1": true, "idx:=^uint64(0)": true, "offset:=uint64(0)": true,
+}
+
+func s2char(e ast.Expr) (string, bool) {
+	bl, ok := e.(*ast.BasicLit)
+	if !ok || bl.Kind != token.CHAR {
+		return "", false
+	}
+	r, _, _, err := strconv.UnquoteChar(bl.Value[1:len(bl.Value)-1], '\'')
+	if err != nil || r < 0x20 || r > 0x7e {
+		return "", false
+	}
+	return string(r), true
+}
+
+// byteCond turns a condition over buf[idx] and constants into a predicate on the byte.
+func (c *s2c) byteCond(e ast.Expr) func(b int) bool {
+	switch x := e.(type) {
+	case *ast.ParenExpr:
+		return c.byteCond(x.X)
+	case *ast.BinaryExpr:
+		switch x.Op {
+		case token.LAND:
+			l, r := c.byteCond(x.X), c.byteCond(x.Y)
+			return func(b int) bool { return l(b) && r(b) }
+		case token.LOR:
+			l, r := c.byteCond(x.X), c.byteCond(x.Y)
+			return func(b int) bool { return l(b) || r(b) }
+		case token.EQL, token.NEQ, token.LSS, token.LEQ, token.GTR, token.GEQ:
+			if nows(src(x.X)) != "buf[idx]" {
+				s2die(e, "comparison whose left side is not buf[idx]")
+			}
+			if _, ok := x.Y.(*ast.BasicLit); !ok {
+				s2die(e, "comparison of buf[idx] against a non-literal")
+			}
+			k := int(c.p.eval(x.Y, 0).Int64())
+			if k < 0 || k > 255 {
+				s2die(e, "comparison constant out of byte range")
+			}
+			op := x.Op
+			return func(b int) bool {
+				switch op {
+				case token.EQL:
+					return b == k
+				case token.NEQ:
+					return b != k
+				case token.LSS:
+					return b < k
+				case token.LEQ:
+					return b <= k
+				case token.GTR:
+					return b > k
+				}
+				return b >= k
+			}
+		}
+	}
+	s2die(e, "unsupported condition")
+	return nil
+}
+
+func (c *s2c) act(name string, n ast.Node, next *s2node) *s2node {
+	return &s2node{kind: s2Act, act: name, next: next, line: s2line(n)}
+}
+
+// block compiles list[i:] with continuation next; brk is the target of an unlabelled break.
+func (c *s2c) block(list []ast.Stmt, i int, next, brk *s2node) *s2node {
+	if i >= len(list) {
+		return next
+	}
+	st := list[i]
+	lbl := ""
+	if ls, ok := st.(*ast.LabeledStmt); ok {
+		lbl = ls.Label.Name
+		st = ls.Stmt
+		if _, ok := st.(*ast.LabeledStmt); ok {
+			s2die(st, "doubly labelled statement")
+		}
+	}
+	var n *s2node
+	if as, ok := st.(*ast.AssignStmt); ok && nows(src(as)) == s2srcTop {
+		k, f := c.popSequence(lbl, list, i)
+		n = f(func() *s2node { return c.block(list, i+k, next, brk) })
+	} else {
+		n = c.stmt(st, func() *s2node { return c.block(list, i+1, next, brk) }, brk)
+	}
+	if lbl == "" {
+		return n
+	}
+	l := c.label(lbl)
+	if l.defined {
+		s2die(st, "label %s defined twice", lbl)
+	}
+	l.defined, l.next, l.line, l.pos = true, n, s2line(list[i]), list[i].Pos()
+	c.labelOrder = append(c.labelOrder, lbl)
+	return l
+}
+
+// callStmt matches `<fun>(<args…>)` as an expression statement and returns the white-space-free arguments.
+func callStmt(st ast.Stmt, fun string, nargs int) ([]ast.Expr, bool) {
+	es, ok := st.(*ast.ExprStmt)
+	if !ok {
+		return nil, false
+	}
+	ce, ok := es.X.(*ast.CallExpr)
+	if !ok || nows(src(ce.Fun)) != fun || len(ce.Args) != nargs {
+		return nil, false
+	}
+	return ce.Args, true
+}
+
+// popSequence recognises the three statement sequences that start by reading the top of containingScopeOffset:
+// the scopeEnd block, the root re-open sequence of startContinue and the succeed block. It returns the number of
+// statements consumed and a constructor taking the (lazily compiled) rest of the block.
+func (c *s2c) popSequence(lbl string, list []ast.Stmt, i int) (int, func(rest func() *s2node) *s2node) {
+	at := func(k int) ast.Stmt {
+		if i+k >= len(list) {
+			s2die(list[i], "statement sequence after the read of the scope stack ends early")
+		}
+		return list[i+k]
+	}
+	isSrc := func(k int, want string) bool { return nows(src(at(k))) == want }
+	if !isSrc(1, s2srcPop) {
+		s2die(at(1), "expected the pop of containingScopeOffset")
+	}
+	// write_tape(offset>>retAddressShift, X)
+	writeAt := func(k int) (string, bool) {
+		args, ok := callStmt(at(k), "pj.write_tape", 2)
+		if !ok || nows(src(args[0])) != s2srcAt {
+			return "", false
+		}
+		if ch, ok := s2char(args[1]); ok {
+			return "write@:" + ch, true
+		}
+		if nows(src(args[1])) == "buf[idx]" {
+			return "write@:buf[idx]", true
+		}
+		return "", false
+	}
+	// annotate_previousloc(offset>>retAddressShift, pj.get_current_loc()[+addOneForRoot])
+	annot := func(k int) (string, bool) {
+		args, ok := callStmt(at(k), "pj.annotate_previousloc", 2)
+		if !ok || nows(src(args[0])) != s2srcAt {
+			return "", false
+		}
+		switch nows(src(args[1])) {
+		case "pj.get_current_loc()":
+			return "annotate:loc", true
+		case "pj.get_current_loc()+addOneForRoot":
+			return "annotate:loc+addOneForRoot", true
+		}
+		return "", false
+	}
+	push := func(k int) (string, bool) {
+		as, ok := at(k).(*ast.AssignStmt)
+		if !ok || as.Tok != token.ASSIGN || len(as.Lhs) != 1 || len(as.Rhs) != 1 || nows(src(as.Lhs[0])) != "pj.containingScopeOffset" {
+			return "", false
+		}
+		m := s2pushRe.FindStringSubmatch(nows(src(as.Rhs[0])))
+		if m == nil {
+			return "", false
+		}
+		return "push:" + m[1], true
+	}
+	write0 := func(k int) (string, bool) {
+		args, ok := callStmt(at(k), "pj.write_tape", 2)
+		if !ok || nows(src(args[0])) != "0" {
+			return "", false
+		}
+		ch, ok := s2char(args[1])
+		return "write:" + ch, ok
+	}
+	first := list[i]
+
+	// --- scopeEnd: pop; write_tape(at, buf[idx]); annotate(at, loc); switch offset & mask
+	if w, ok := writeAt(2); ok && w == "write@:buf[idx]" {
+		a, ok := annot(3)
+		if !ok || a != "annotate:loc" {
+			s2die(at(3), "scopeEnd: expected annotate_previousloc(offset>>retAddressShift, pj.get_current_loc())")
+		}
+		sw, ok := at(4).(*ast.SwitchStmt)
+		if !ok || sw.Init != nil || sw.Tag == nil || nows(src(sw.Tag)) != s2srcRetSw {
+			s2die(at(4), "scopeEnd: expected the switch on the return code")
+		}
+		if lbl != "scopeEnd" || c.nScopeEnd != 0 {
+			s2die(first, "scope-end sequence outside the (single) scopeEnd: block")
+		}
+		c.nScopeEnd++
+		c.retMask = c.p.eval(sw.Tag.(*ast.BinaryExpr).Y, 0).Int64()
+		seenDefault := false
+		for _, cl := range sw.Body.List {
+			cc := cl.(*ast.CaseClause)
+			target, ok := isGoto(&ast.BlockStmt{List: cc.Body})
+			if !ok {
+				s2die(cc, "scopeEnd: case body is not a single goto")
+			}
+			c.label(target)
+			if cc.List == nil {
+				seenDefault = true
+				c.rets = append(c.rets, s2ret{name: "", val: -1, target: target, line: s2line(cc)})
+				continue
+			}
+			for _, e := range cc.List {
+				id, ok := e.(*ast.Ident)
+				if !ok {
+					s2die(cc, "scopeEnd: case value is not a named constant")
+				}
+				c.rets = append(c.rets, s2ret{name: id.Name, val: c.p.eval(e, 0).Int64(), target: target, line: s2line(cc)})
+			}
+		}
+		if !seenDefault {
+			s2die(sw, "scopeEnd: return-code switch without default")
+		}
+		c.scopeEnd = []string{"pop", w, a, "dispatch"}
+		return 5, func(rest func() *s2node) *s2node {
+			// every clause leaves by goto, so the statements after the switch are not reachable from here;
+			// they are still compiled (they carry labels)
+			rest()
+			return c.act("scopeEnd", first, &s2node{kind: s2Ret, line: s2line(sw)})
+		}
+	}
+
+	// --- succeed: pop; if len(stack) != 0 { return false, done }; annotate(+1); write_tape(at,'r'); isvalid = true; return true, done
+	if ifs, ok := at(2).(*ast.IfStmt); ok {
+		if lbl != "succeed" || ifs.Init != nil || ifs.Else != nil || nows(src(ifs.Cond)) != "len(pj.containingScopeOffset)!=0" ||
+			len(ifs.Body.List) != 1 || nows(src(ifs.Body.List[0])) != "returnfalse,done" {
+			s2die(ifs, "succeed: expected `if len(pj.containingScopeOffset) != 0 { return false, done }`")
+		}
+		a, ok1 := annot(3)
+		w, ok2 := writeAt(4)
+		if !ok1 || !ok2 || a != "annotate:loc+addOneForRoot" || w != "write@:r" || !isSrc(5, "pj.isvalid=true") || !isSrc(6, "returntrue,done") {
+			s2die(first, "succeed: block has an unexpected shape")
+		}
+		c.succeed = []string{"pop", "requireEmpty", a, w, "isvalid", "return:true"}
+		return 7, func(rest func() *s2node) *s2node {
+			rest()
+			return &s2node{kind: s2Succeed, line: s2line(first)}
+		}
+	}
+
+	// --- root re-open: pop; annotate(+1); write_tape(at,'r'); push start; write_tape(0,'r')
+	a, ok1 := annot(2)
+	w, ok2 := writeAt(3)
+	pu, ok3 := push(4)
+	w0, ok4 := write0(5)
+	if ok1 && ok2 && ok3 && ok4 && a == "annotate:loc+addOneForRoot" && w == "write@:r" && pu == "push:retAddressStartConst" && w0 == "write:r" {
+		if c.reopen != nil {
+			s2die(first, "second root re-open sequence")
+		}
+		c.reopen = []string{"pop", a, w, pu, w0}
+		return 6, func(rest func() *s2node) *s2node { return c.act("reopenRoot", first, rest()) }
+	}
+	s2die(first, "read of the scope stack that starts none of: scopeEnd, succeed, root re-open")
+	return 0, nil
+}
+
+func (c *s2c) stmt(st ast.Stmt, rest func() *s2node, brk *s2node) *s2node {
+	switch x := st.(type) {
+	case *ast.DeclStmt, *ast.EmptyStmt:
+		if _, ok := st.(*ast.EmptyStmt); ok || s2decls[nows(src(st))] {
+			return rest()
+		}
+	case *ast.AssignStmt:
+		if x.Tok == token.DEFINE && s2decls[nows(src(st))] {
+			return rest()
+		}
+		if x.Tok == token.ASSIGN && len(x.Lhs) == 1 && len(x.Rhs) == 1 && nows(src(x.Lhs[0])) == "pj.containingScopeOffset" {
+			if m := s2pushRe.FindStringSubmatch(nows(src(x.Rhs[0]))); m != nil {
+				c.p.constVal(m[1])
+				return c.act("push:"+m[1], st, rest())
+			}
+		}
+	case *ast.ExprStmt:
+		if args, ok := callStmt(st, "pj.write_tape", 2); ok && nows(src(args[0])) == "0" {
+			if ch, ok := s2char(args[1]); ok {
+				return c.act("write:"+ch, st, rest())
+			}
+		}
+	case *ast.BranchStmt:
+		switch {
+		case x.Tok == token.GOTO && x.Label != nil:
+			rest() // statements after a goto are compiled for their labels only
+			return c.label(x.Label.Name)
+		case x.Tok == token.BREAK && x.Label == nil && brk != nil:
+			rest()
+			return brk
+		}
+	case *ast.ReturnStmt:
+		if nows(src(st)) == "returnfalse,done" {
+			rest()
+			return &s2node{kind: s2Fail, line: s2line(st)}
+		}
+	case *ast.BlockStmt:
+		after := rest()
+		return c.block(x.List, 0, after, brk)
+	case *ast.IfStmt:
+		if x.Init != nil {
+			// if done, idx = updateChar(pj, idx); done { goto succeed } [else { … }]
+			target, ok := isGoto(x.Body)
+			if nows(src(x.Init)) != s2srcUpd || nows(src(x.Cond)) != "done" || !ok || target != "succeed" {
+				break
+			}
+			c.label("succeed")
+			after := rest()
+			n := &s2node{kind: s2Site, line: s2line(st), pos: st.Pos(), next: after}
+			if x.Else != nil {
+				n.next = c.stmt(x.Else, func() *s2node { return after }, brk)
+			}
+			c.sites = append(c.sites, n)
+			return n
+		}
+		if ue, ok := x.Cond.(*ast.UnaryExpr); ok && ue.Op == token.NOT {
+			// guard: if !call(…) { goto fail }
+			name, known := s2guards[nows(src(ue.X))]
+			target, ok := isGoto(x.Body)
+			if !known || !ok || target != "fail" || x.Else != nil {
+				break
+			}
+			c.label("fail")
+			return c.act(name, st, rest())
+		}
+		after := rest()
+		n := &s2node{kind: s2Branch, cond: c.byteCond(x.Cond), line: s2line(st), alt: after}
+		n.next = c.block(x.Body.List, 0, after, brk)
+		if x.Else != nil {
+			n.alt = c.stmt(x.Else, func() *s2node { return after }, brk)
+		}
+		return n
+	case *ast.ForStmt:
+		if x.Init != nil || x.Post != nil || x.Cond == nil {
+			break
+		}
+		after := rest()
+		n := &s2node{kind: s2Branch, cond: c.byteCond(x.Cond), line: s2line(st), alt: after}
+		n.next = c.block(x.Body.List, 0, n, after)
+		return n
+	case *ast.SwitchStmt:
+		if x.Init != nil || x.Tag == nil || nows(src(x.Tag)) != "buf[idx]" {
+			break
+		}
+		after := rest()
+		n := &s2node{kind: s2Switch, line: s2line(st)}
+		var def *s2node
+		defLine := 0
+		for _, cl := range x.Body.List {
+			cc := cl.(*ast.CaseClause)
+			for _, s := range cc.Body {
+				if bs, ok := s.(*ast.BranchStmt); ok && bs.Tok == token.FALLTHROUGH {
+					s2die(cc, "fallthrough")
+				}
+			}
+			body := c.block(cc.Body, 0, after, after)
+			if cc.List == nil {
+				if def != nil {
+					s2die(cc, "second default clause")
+				}
+				def, defLine = body, s2line(cc)
+				continue
+			}
+			for _, e := range cc.List {
+				if _, ok := e.(*ast.BasicLit); !ok {
+					s2die(cc, "case value is not a literal")
+				}
+				k := c.p.eval(e, 0).Int64()
+				if k < 0 || k > 255 || n.tbl[k] != nil {
+					s2die(cc, "case value out of range or repeated")
+				}
+				n.tbl[k], n.tblLine[k] = body, s2line(cc)
+			}
+		}
+		if def == nil {
+			def, defLine = after, s2line(st)
+		}
+		for k := range n.tbl {
+			if n.tbl[k] == nil {
+				n.tbl[k], n.tblLine[k] = def, defLine
+			}
+		}
+		return n
+	}
+	s2die(st, "statement shape not understood")
+	return nil
+}
+
+type s2result struct {
+	fail bool
+	acts []string
+	succ int // site number, -1 = by return code
+	line int // source line of the last decision that depended on the byte
+}
+
+// run executes from n with buf[idx] = b (b < 0: the byte must not be looked at) up to the next call site.
+func (c *s2c) run(n *s2node, b int, what string) s2result {
+	var r s2result
+	look := func(n *s2node) {
+		if b < 0 {
+			die("unifiedMachine line %d: %s looks at buf[idx]", n.line, what)
+		}
+	}
+	for steps := 0; steps < 100000; steps++ {
+		if n == nil {
+			die("unifiedMachine: %s runs off the end of the function", what)
+		}
+		switch n.kind {
+		case s2Label:
+			if !n.defined {
+				die("unifiedMachine: goto undefined label %s", n.label)
+			}
+			n = n.next
+		case s2Act:
+			r.acts = append(r.acts, n.act)
+			n = n.next
+		case s2Branch:
+			look(n)
+			r.line = n.line
+			if n.cond(b) {
+				n = n.next
+			} else {
+				n = n.alt
+			}
+		case s2Switch:
+			look(n)
+			r.line = n.tblLine[b]
+			n = n.tbl[b]
+		case s2Site:
+			r.succ = n.site
+			return r
+		case s2Fail:
+			return s2result{fail: true, line: r.line}
+		case s2Ret:
+			if len(r.acts) == 0 || r.acts[len(r.acts)-1] != "scopeEnd" {
+				die("unifiedMachine: return-code dispatch not preceded by scopeEnd")
+			}
+			r.succ = -1
+			return r
+		case s2Succeed:
+			die("unifiedMachine line %d: %s reaches succeed: with done == false", n.line, what)
+		default:
+			die("unifiedMachine: bad node")
+		}
+	}
+	die("unifiedMachine: %s does not reach a call site (loop without updateChar)", what)
+	return r
+}
+
+func (c *s2c) siteOfLabel(name string) (int, bool) {
+	n := c.labels[name]
+	for i := 0; n != nil && n.kind == s2Label && i < 100; i++ {
+		n = n.next
+	}
+	if n != nil && n.kind == s2Site {
+		return n.site, true
+	}
+	return 0, false
+}
+
+func leanNats(xs []int) string {
+	var q []string
+	for _, x := range xs {
+		q = append(q, strconv.Itoa(x))
+	}
+	return "[" + strings.Join(q, ", ") + "]"
+}
+
+func byteNames(xs []int) string {
+	var q []string
+	for _, x := range xs {
+		switch {
+		case x == '\n':
+			q = append(q, `'\n'`)
+		case x >= 0x21 && x <= 0x7e:
+			q = append(q, "'"+string(rune(x))+"'")
+		default:
+			q = append(q, fmt.Sprintf("0x%02x", x))
+		}
+	}
+	if len(q) > 4 && xs[len(xs)-1]-xs[0] == len(xs)-1 {
+		return fmt.Sprintf("%s … %s", q[0], q[len(q)-1])
+	}
+	return strings.Join(q, " ")
+}
+
+func genStage2Table(p *pkgInfo, out string) {
+	const fn = "internalParsedJson.unifiedMachine"
+	fd, ok := p.funcs[fn]
+	if !ok || fd.Body == nil {
+		die("function %s not found", fn)
+	}
+	file := filepath.Base(fset.Position(fd.Pos()).Filename)
+	c := &s2c{p: p, labels: map[string]*s2node{}}
+	entry := c.block(fd.Body.List, 0, nil, nil)
+	for name, l := range c.labels {
+		if !l.defined {
+			die("unifiedMachine: label %s used but not defined", name)
+		}
+	}
+	if c.nScopeEnd != 1 || c.succeed == nil || c.reopen == nil {
+		die("unifiedMachine: scopeEnd / succeed / root re-open block not found")
+	}
+	if l, ok := c.labels["fail"]; !ok || l.next == nil || l.next.kind != s2Fail {
+		die("unifiedMachine: fail: is not `return false, done`")
+	}
+	if l, ok := c.labels["succeed"]; !ok || l.next == nil || l.next.kind != s2Succeed {
+		die("unifiedMachine: succeed: block not recognised")
+	}
+	// number the call sites and the labels in source order
+	sort.Slice(c.sites, func(i, j int) bool { return c.sites[i].pos < c.sites[j].pos })
+	for i, s := range c.sites {
+		s.site = i
+	}
+	sort.Slice(c.labelOrder, func(i, j int) bool { return c.labels[c.labelOrder[i]].pos < c.labels[c.labelOrder[j]].pos })
+	// every updateChar call of the function must be one of the recognised sites
+	calls := 0
+	ast.Inspect(fd.Body, func(n ast.Node) bool {
+		if ce, ok := n.(*ast.CallExpr); ok && src(ce.Fun) == "updateChar" {
+			calls++
+		}
+		return true
+	})
+	if calls != len(c.sites) {
+		die("unifiedMachine: %d calls of updateChar, %d recognised call sites", calls, len(c.sites))
+	}
+
+	var b strings.Builder
+	b.WriteString(header)
+	fmt.Fprintf(&b, "-- Control skeleton of `unifiedMachine` (%s), obtained by executing the statements that follow each\n", file)
+	b.WriteString("-- call site of `updateChar` for every value of buf[idx], with `done == false` and every guard call succeeding.\n")
+	b.WriteString("namespace SJ.Generated\n\n")
+
+	// START prologue
+	pro := c.run(entry, -1, "the START prologue")
+	if pro.fail || pro.succ != 0 {
+		die("unifiedMachine: the START prologue does not reach the first call site")
+	}
+	fmt.Fprintf(&b, "/-- actions between function entry and the first call site -/\ndef stage2Prologue : List String := %s\n\n", leanStrList(pro.acts))
+
+	// enclosing label of each site
+	var siteLines []int
+	var siteLabels []string
+	for _, s := range c.sites {
+		siteLines = append(siteLines, s.line)
+		lab := ""
+		for _, name := range c.labelOrder {
+			if c.labels[name].pos <= s.pos {
+				lab = name
+			}
+		}
+		siteLabels = append(siteLabels, lab)
+	}
+	fmt.Fprintf(&b, "/-- source line of each call site of `updateChar`, in source order -/\ndef stage2SiteLines : List Nat := %s\n\n", leanNats(siteLines))
+	fmt.Fprintf(&b, "/-- the label whose block contains the call site (\"\" = before the first label) -/\ndef stage2SiteLabels : List String := %s\n\n", leanStrList(siteLabels))
+
+	var ls []string
+	for _, name := range c.labelOrder {
+		if s, ok := c.siteOfLabel(name); ok {
+			ls = append(ls, fmt.Sprintf("(%q, %d)", name, s))
+		}
+	}
+	fmt.Fprintf(&b, "/-- labels whose block starts with a call site -/\ndef stage2LabelSite : List (String × Nat) := [%s]\n\n", strings.Join(ls, ", "))
+
+	// the table
+	b.WriteString("/-- per call site: (bytes, actions, next call site); `none` = decided by the popped return code\n    (`stage2RetDispatch`); every byte not listed leads to `goto fail` -/\n")
+	b.WriteString("def stage2Sites : List (List (List Nat × List String × Option Nat)) := [\n")
+	for si, s := range c.sites {
+		type group struct {
+			key   string
+			bytes []int
+			r     s2result
+		}
+		var groups []*group
+		idx := map[string]*group{}
+		for bv := 0; bv < 256; bv++ {
+			r := c.run(s.next, bv, fmt.Sprintf("call site %d (line %d), byte %d,", si, s.line, bv))
+			if r.fail {
+				continue
+			}
+			key := fmt.Sprintf("%d|%s|%d", r.line, strings.Join(r.acts, ","), r.succ)
+			g, ok := idx[key]
+			if !ok {
+				g = &group{key: key, r: r}
+				idx[key] = g
+				groups = append(groups, g)
+			}
+			g.bytes = append(g.bytes, bv)
+		}
+		fmt.Fprintf(&b, "  -- site %d: line %d, in %s\n  [", si, s.line, map[bool]string{true: "the START state", false: siteLabels[si] + ":"}[siteLabels[si] == ""])
+		for gi, g := range groups {
+			succ := "none"
+			if g.r.succ >= 0 {
+				succ = fmt.Sprintf("some %d", g.r.succ)
+			}
+			sep := ","
+			if gi == len(groups)-1 {
+				sep = " "
+			}
+			if gi > 0 {
+				b.WriteString("\n   ")
+			}
+			fmt.Fprintf(&b, "(%s, %s, %s)%s  -- line %d: %s", leanNats(g.bytes), leanStrList(g.r.acts), succ, sep, g.r.line, byteNames(g.bytes))
+		}
+		if len(groups) == 0 {
+			b.WriteString(" -- every byte fails")
+		}
+		b.WriteString("\n  ]")
+		if si != len(c.sites)-1 {
+			b.WriteString(",")
+		}
+		b.WriteString("\n")
+	}
+	b.WriteString("]\n\n")
+
+	// scopeEnd: return-code dispatch
+	fmt.Fprintf(&b, "/-- shape of the `scopeEnd:` block (one action `scopeEnd` in the table) -/\ndef stage2ScopeEnd : List String := %s\n\n", leanStrList(c.scopeEnd))
+	fmt.Fprintf(&b, "/-- `offset & %d` selects the return code -/\ndef stage2RetMask : Nat := %d\n\n", c.retMask, c.retMask)
+	var rd []string
+	var rc, rn []string
+	def := ""
+	for _, r := range c.rets {
+		s, ok := c.siteOfLabel(r.target)
+		if !ok {
+			die("unifiedMachine line %d: scopeEnd dispatches to %s, which does not start with a call site", r.line, r.target)
+		}
+		if r.name == "" {
+			def = fmt.Sprintf("/-- default clause of the dispatch: line %d, goto %s -/\ndef stage2RetDefault : Nat := %d\n\n", r.line, r.target, s)
+			continue
+		}
+		rd = append(rd, fmt.Sprintf("(%d, %d)", r.val, s))
+		rn = append(rn, fmt.Sprintf("(%q, %q)", r.name, r.target))
+		rc = append(rc, fmt.Sprintf("line %d: %s -> %s", r.line, r.name, r.target))
+	}
+	fmt.Fprintf(&b, "/-- (return code, call site) of the `switch offset & ((1 << retAddressShift) - 1)` in `scopeEnd:`\n    %s -/\ndef stage2RetDispatch : List (Nat × Nat) := [%s]\n\n", strings.Join(rc, "; "), strings.Join(rd, ", "))
+	fmt.Fprintf(&b, "/-- the same clauses by name: (constant, label) -/\ndef stage2RetDispatchNames : List (String × String) := [%s]\n\n", strings.Join(rn, ", "))
+	b.WriteString(def)
+	fmt.Fprintf(&b, "/-- shape of the root re-open sequence in `startContinue:` (one action `reopenRoot` in the table) -/\ndef stage2ReopenRoot : List String := %s\n\n", leanStrList(c.reopen))
+	fmt.Fprintf(&b, "/-- shape of the `succeed:` block -/\ndef stage2Succeed : List String := %s\n\n", leanStrList(c.succeed))
+	b.WriteString("end SJ.Generated\n")
+	writeIfChanged(filepath.Join(out, "Stage2Table.lean"), b.String())
 }
